@@ -116,7 +116,34 @@ func c20History(res *Result, d *Driver, rng *Rng, root string, ct *cgroup.Contro
 	bad := func(what, input, impl string) {
 		res.Mismatch(Mismatch{Kind: "oracle", What: what + " (" + tag + ")", Input: input, Impl: impl, Oracle: "violates"})
 	}
+	// limits written stay the limits in force, whatever is done afterwards through other handles (re-opening the group,
+	// creating sub-groups, destroying non-owning handles ...): name -> file -> value
+	ledger := map[string]map[string]string{}
+	lastOp := "start"
+	limitFile := func(name, ctrl, file string) string {
+		if v2 {
+			return filepath.Join(ctrlDirs(name)[0], file)
+		}
+		return filepath.Join(cgroup.VerifBasePath, ctrl, name, file)
+	}
+	verifyLedger := func() {
+		for name, files := range ledger {
+			if !dirExists(ctrlDirs(name)[0]) {
+				delete(ledger, name)
+				continue
+			}
+			for f, want := range files {
+				b, err := os.ReadFile(f)
+				if err != nil || strings.TrimSpace(string(b)) != want {
+					bad("a limit written earlier is no longer the limit in force (C20 limits)", fmt.Sprintf("%s group %s: %s was set to %q; then: %s", tag, name, f, want, lastOp), fmt.Sprintf("now %q %v", strings.TrimSpace(string(b)), err))
+					delete(files, f)
+				}
+			}
+		}
+	}
+	defer verifyLedger()
 	for s := 0; s < steps; s++ {
+		verifyLedger()
 		op := rng.Intn(7)
 		switch {
 		case op <= 1: // New under the root handle
@@ -137,6 +164,7 @@ func c20History(res *Result, d *Driver, rng *Rng, root string, ct *cgroup.Contro
 				cg, err = top.New(n)
 			}
 			key := fmt.Sprintf("%s %s(%s) existed=%v", tag, how, n, existed)
+			lastOp = key
 			res.Case(key+itoa(s), true, tag+"-new")
 			if err != nil {
 				bad(how+" failed", key, err.Error())
@@ -213,6 +241,7 @@ func c20History(res *Result, d *Driver, rng *Rng, root string, ct *cgroup.Contro
 			existed := dirExists(ctrlDirs(full)[0])
 			cg, err := h.cg.New(n)
 			key := fmt.Sprintf("%s sub-New(%s/%s) existed=%v", tag, h.name, n, existed)
+			lastOp = key
 			res.Case(key+itoa(s), true, tag+"-subnew")
 			if err != nil || cg == nil {
 				bad("New under a handle failed", key, fmt.Sprint(err))
@@ -255,6 +284,7 @@ func c20History(res *Result, d *Driver, rng *Rng, root string, ct *cgroup.Contro
 			present := dirExists(h.dirs[0])
 			err := h.cg.AddProc(pid)
 			key := fmt.Sprintf("%s AddProc(%s, created=%v)", tag, h.name, h.created)
+			lastOp = key
 			res.Case(key+itoa(s), true, tag+"-addproc")
 			if !present {
 				// the group was removed by its creator: a stale handle must fail loudly, not succeed
@@ -331,9 +361,38 @@ func c20History(res *Result, d *Driver, rng *Rng, root string, ct *cgroup.Contro
 					}
 				}
 			}
+			lastOp = key
+			if ledger[h.name] == nil {
+				ledger[h.name] = map[string]string{}
+			}
+			if ct.Memory {
+				f := "memory.limit_in_bytes"
+				if v2 {
+					f = "memory.max"
+				}
+				if b, err := os.ReadFile(limitFile(h.name, "memory", f)); err == nil && strings.TrimSpace(string(b)) == strconv.FormatUint(lim, 10) {
+					ledger[h.name][limitFile(h.name, "memory", f)] = strconv.FormatUint(lim, 10)
+				}
+			}
 			if ct.Pids {
 				if err := h.cg.SetProcLimit(77); err != nil {
 					bad("SetProcLimit failed", key, err.Error())
+				} else {
+					ledger[h.name][limitFile(h.name, "pids", "pids.max")] = "77"
+				}
+			}
+			// a cpuset narrower than the parent's (only where the kernel allows it: no sub-groups yet)
+			hasSubGroup := false
+			for n := range owner {
+				if strings.HasPrefix(n, h.name+"/") && dirExists(ctrlDirs(n)[0]) {
+					hasSubGroup = true
+				}
+			}
+			if !v2 && ct.CPUSet && !hasSubGroup {
+				if err := h.cg.SetCPUSet([]byte("0")); err != nil {
+					bad("SetCPUSet failed", key+" SetCPUSet(0)", err.Error())
+				} else {
+					ledger[h.name][limitFile(h.name, "cpuset", "cpuset.cpus")] = "0"
 				}
 			}
 			if _, err := h.cg.CPUUsage(); err != nil && (ct.CPUAcct || v2) {
@@ -367,6 +426,7 @@ func c20History(res *Result, d *Driver, rng *Rng, root string, ct *cgroup.Contro
 				}
 			}
 			key := fmt.Sprintf("%s Destroy(%s, created=%v)", tag, h.name, h.created)
+			lastOp = key
 			res.Case(key+itoa(s), true, tag+"-destroy")
 			gone := before && !dirExists(h.dirs[0])
 			wasThere := false
@@ -406,7 +466,7 @@ func c20History(res *Result, d *Driver, rng *Rng, root string, ct *cgroup.Contro
 }
 
 func runC20(res *Result, d *Driver, tier string, seed uint64) {
-	res.Rule = "part A: random sequential histories of New/Random/AddProc(sleeping children)/Set*/usage/Destroy on a tree of groups under a scratch prefix on the machine's REAL cgroup v1 hierarchies, with an independent bookkeeping oracle (who created which group): Existing(), nesting, cgroup.procs contents, limit files, Destroy ownership; part B: 16 concurrent creators of the same name (exactly one may own the group; every Destroy by a non-owner must leave it) and of random names (pairwise distinct); " +
+	res.Rule = "part A: random sequential histories of New/Random/AddProc(sleeping children)/Set*/usage/Destroy on a tree of groups under a scratch prefix on the machine's REAL cgroup v1 hierarchies, with an independent bookkeeping oracle (who created which group): Existing(), nesting, cgroup.procs contents, limit files (memory, pids, a cpuset narrower than the parent's; re-checked after every later operation, e.g. re-opening the group), Destroy ownership; part B: 16 concurrent creators of the same name (exactly one may own the group; every Destroy by a non-owner must leave it) and of random names (pairwise distinct); " +
 		"part C: parsers on crafted files through the verif hook (cpu.stat with extra lines/fields, large values, missing key; ReadUint; cgroup.procs) vs the model (driver); part D: the same histories and races on a real cgroup2 mount in a private mount namespace (child process). non-trivial = every operation; distinct = (history, step)."
 	rng := NewRng(seed, "C20", 1)
 	ct, err := cgroup.GetAvailableController()
